@@ -13,6 +13,9 @@ use std::io::{Read, Seek, SeekFrom};
 use std::panic::{catch_unwind, AssertUnwindSafe};
 use std::sync::atomic::{AtomicUsize, Ordering};
 
+/// bytes delivered by the scripted reader (laziness accounting)
+static BYTES_READ: AtomicUsize = AtomicUsize::new(0);
+
 struct CountingAlloc;
 static MAX_ALLOC: AtomicUsize = AtomicUsize::new(0);
 static ALLOC_LIMIT: AtomicUsize = AtomicUsize::new(usize::MAX);
@@ -90,6 +93,7 @@ impl Read for ScriptReader<'_> {
         buf[..n].copy_from_slice(&self.data[self.pos as usize..self.pos as usize + n]);
         self.pos += n as u64;
         self.bytes_read += n;
+        BYTES_READ.fetch_add(n, Ordering::Relaxed);
         Ok(n)
     }
 }
@@ -180,7 +184,11 @@ fn scenario_a(len: usize, seq: &[(u64, u64)], at: usize, fault: Fault, short: bo
         let sh = shdr(1, off, size);
         let expect = bytes.section_data(&sh);
         MAX_ALLOC.store(0, Ordering::Relaxed);
+        BYTES_READ.store(0, Ordering::Relaxed);
         let got = catch_unwind(AssertUnwindSafe(|| stream.section_data(&sh).map(|(b, c)| (b.to_vec(), c))));
+        if !short && fault == Fault::None && (BYTES_READ.load(Ordering::Relaxed) as u64) > size {
+            fail!("C08 section_data({off},{size}) read {} bytes from the stream, more than the designated range", BYTES_READ.load(Ordering::Relaxed));
+        }
         let got = match got {
             Ok(g) => g,
             Err(_) => fail!("C08 section_data panicked at query {qi} range ({off},{size})"),
@@ -191,11 +199,14 @@ fn scenario_a(len: usize, seq: &[(u64, u64)], at: usize, fault: Fault, short: bo
         match (&got, &expect) {
             (Ok((g, _)), Ok((e, _))) => {
                 if g.as_slice() != *e {
+                    if fault == Fault::Error || fault == Fault::Eof {
+                        fail!("C17 section_data({off},{size}) at query {qi}: under an injected {fault:?} the stream returned Ok with fabricated/different bytes (len {} vs {})", g.len(), e.len());
+                    }
                     fail!("C07 section_data({off},{size}) at query {qi}: stream returned different bytes than the slice parser (len {} vs {})", g.len(), e.len());
                 }
             }
             (Err(_), Err(_)) => {}
-            (Ok(_), Err(e)) => fail!("C07 section_data({off},{size}) at query {qi}: stream Ok where the slice parser fails ({e})"),
+            (Ok(_), Err(e)) => fail!("{} section_data({off},{size}) at query {qi}: stream Ok where the slice parser fails ({e})", if fault == Fault::Error || fault == Fault::Eof { "C17" } else { "C07" }),
             (Err(e), Ok(_)) => {
                 // acceptable only if a hard fault fired during this life of the stream and it is this query that hit it
                 let hard = fault == Fault::Error || fault == Fault::Eof;
@@ -305,12 +316,22 @@ fn run_family_a(hints: &[(String, u64)]) -> Result<usize, Failure> {
 fn compare_file(name: &str, file: &[u8], at: usize, fault: Fault, short: bool) -> Result<(), Failure> {
     let bytes = ElfBytes::<AnyEndian>::minimal_parse(file);
     MAX_ALLOC.store(0, Ordering::Relaxed);
+    BYTES_READ.store(0, Ordering::Relaxed);
     let reader = ScriptReader::new(file, at, fault, short);
     let opened = match catch_unwind(AssertUnwindSafe(|| ElfStream::<AnyEndian, _>::open_stream(reader))) {
         Ok(o) => o,
         Err(_) => fail!("C08 open_stream panicked on {name}"),
     };
     let hard = fault == Fault::Error || fault == Fault::Eof;
+    if let Ok(b) = &bytes {
+        // laziness of open: no more than the file header, shdr[0] (twice at most) and the two tables
+        let sh = b.section_headers().map(|t| t.len()).unwrap_or(0) * 64;
+        let ph = b.segments().map(|t| t.len()).unwrap_or(0) * 56;
+        let allowed = 64 + 2 * 64 + sh + ph;
+        if fault == Fault::None && BYTES_READ.load(Ordering::Relaxed) > allowed {
+            fail!("C08 open_stream on {name} read {} bytes, more than header + tables ({allowed})", BYTES_READ.load(Ordering::Relaxed));
+        }
+    }
     if MAX_ALLOC.load(Ordering::Relaxed) > 4 * file.len() + 8192 {
         fail!("C08 open_stream on {name}: single allocation of {} bytes for a {}-byte stream", MAX_ALLOC.load(Ordering::Relaxed), file.len());
     }
@@ -326,6 +347,9 @@ fn compare_file(name: &str, file: &[u8], at: usize, fault: Fault, short: bool) -
         (Ok(_), Err(e)) => fail!("C07/C05 open_stream succeeds on {name} where minimal_parse fails ({e})"),
     };
     if s.ehdr != b.ehdr {
+        if hard {
+            fail!("C17 {name}: open_stream succeeded under an injected {fault:?} with a fabricated file header");
+        }
         fail!("C07 {name}: file headers differ");
     }
     let bsh: Vec<SectionHeader> = b.section_headers().map(|t| t.iter().collect()).unwrap_or_default();
@@ -360,7 +384,15 @@ fn compare_file(name: &str, file: &[u8], at: usize, fault: Fault, short: bool) -
     if nonempty_or_absent {
         // symbol tables: success coincides, same symbols and same names
         let bs = b.symbol_table();
+        BYTES_READ.store(0, Ordering::Relaxed);
+        let designated: usize = bsh.iter().find(|h| h.sh_type == 2).map(|h| {
+            let l = bsh.get(h.sh_link as usize).map(|x| x.sh_size).unwrap_or(0);
+            (h.sh_size.saturating_add(l)).min(usize::MAX as u64) as usize
+        }).unwrap_or(0);
         let ss = s.symbol_table();
+        if fault == Fault::None && !short && BYTES_READ.load(Ordering::Relaxed) > designated {
+            fail!("C08 {name}: symbol_table() read {} bytes, more than the symbol table and its string table ({designated})", BYTES_READ.load(Ordering::Relaxed));
+        }
         match (ss, bs) {
             (Ok(Some((st, sstr))), Ok(Some((bt, bstr)))) => {
                 if st.len() != bt.len() {
